@@ -281,6 +281,7 @@ class NetAddr():
         clump = []
         acc_size = 16  # Bundle prefix + Timetag bytes.
         for s, e in elist:
+            s += 4  # Element size bytes.
             if acc_size + s >= size:
                 res.append(clump)
                 clump = []
